@@ -25,6 +25,7 @@ META["explanation"] += (" R12.4 an adapter that owns a buffer of diffs waiting t
 META["explanation"] += ' R12.3 the view handed to the next stage is in source order (no odd number of rev() in the chain it is collected from).'
 META["explanation"] += " R12.5 into_parts only reads the adapter's own replica / limit / count when it hands the adapter on as the stream (no mem::take / assignment / in-place cut of those fields)."
 META["explanation"] += ' R12.4 counts an assignment to the waiting-diff buffer only if it does not store the old buffer again.'
+META["explanation"] += " R12.6 the cut position of Tail's hand-over normalises (linear form over limit L and replica length P, under P >= L >= 1) to P - L."
 
 
 def run(ctx):
@@ -138,6 +139,7 @@ def parts_rules(ctx):
     ctx.floor("R12.2", k, 14)
     r12_4(ctx)
     r12_5(ctx)
+    r12_6(ctx)
 
 
 
@@ -224,3 +226,51 @@ def r12_5(ctx):
 def has_field_access(e):
     x = strip(e, through_calls=False)
     return x[0] == "field"
+
+
+def r12_6(ctx):
+    """the position at which Tail's hand-over cuts its replica: with more items than the limit the view starts at `len - limit`.
+    The cut position is normalised to a linear form over L (the limit) and P (the replica's length) under `P >= L >= 1` - the same
+    evaluation R09.10 applies to emitted indices - and must be P - L (swapped operands give L - P, clamped to 0: the whole replica
+    is handed to the next stage)."""
+    from .linear import Lin, sym, Normaliser
+    F = ctx.facts
+    n = 0
+    for imp in F.impls:
+        if imp["crate"] != UT or imp["trait"] != "vector::traits::VectorObserver" or not imp["self_ty"].startswith("vector::tail::Tail<"):
+            continue
+        fn_path = [p for p in imp["fns"] if p.endswith("::into_parts")]
+        f = F.fn(UT, fn_path[0]) if fn_path else None
+        if f is None or not f.built:
+            continue
+        # everything local is inlined here, also methods of private extension traits (`TruncateFromEnd::truncate_from_end`)
+        b = inl(F, f, keep=lambda g: not (g.path.startswith("vector::tail::") or "vector::tail::" in g.path), desugar=True, tag="r12.6") or f.built
+
+        def symbols(e):
+            x = e
+            while x[0] in ("ref", "deref", "cast"):
+                x = x[1]
+            if x[0] == "field" and x[2] == "limit":
+                return "L"
+            if x[0] == "call" and ecall_matches(x, r"::len$") and x[3] and mentions_field(x[3][0], "buffered_vector"):
+                return "P"
+            return None
+        L, P, one = sym("L"), sym("P"), Lin(const=1)
+        for blk, t in b.calls(r"GenericVector::<.*>::(split_at|skip|split_off|slice)$"):
+            if len(t["args"]) < 2 or not mentions_field(b.expr_of_op(t["args"][0]), "buffered_vector"):
+                continue
+            n += 1
+            op = b.expr_of_op(t["args"][1])
+            nz = Normaliser(b, symbols, [P - L, L - one, P])
+            r = nz.nf(op)
+            where = b.line_at((blk, 10 ** 6))
+            if r.opaque():
+                ctx.undecided("R12.6", f, "handover-cut-position", where, "cut position `%s` not normalised" % fmt(op, 4))
+                continue
+            d = r - (P - L)
+            if d.is_const() and d.c == 0:
+                ctx.holds("R12.6", f, "handover-cut-position", where, "cut position = %s = P - L while the replica is longer than the limit" % fmt(op, 4))
+            else:
+                ctx.violated("R12.6", f, "handover-cut-position", where,
+                             "`%s` cuts its replica at `%s`, which normalises to `%s` while the replica holds more items than the limit - the view of a Tail starts at `len - limit`: the next stage is handed items that are not in the view (e.g. the whole replica when the operands are swapped and the difference clamps to 0)" % (f.path, fmt(op, 4), r))
+    return n
